@@ -337,12 +337,14 @@ theorem restart_recovers (self : Nat) (a : Addr) (sn : Nat) (sa : Addr) (log : L
     rw [hS]
     funext j
     have hkept : keptBook self (Book.single self a) B0 = Book.single self a := by
-      funext i
-      unfold keptBook
-      by_cases hi : i = self
-      · simp [hi]
-      · simp only [hi, if_false]
-        cases B0 i <;> simp [Book.single, hi]
+      unfold keptBook keptBookIf
+      split
+      · rfl
+      · funext i
+        by_cases hi : i = self
+        · simp [hi]
+        · simp only [hi, if_false]
+          cases B0 i <;> simp [Book.single, hi]
     have hrb : restoreBook Rules.code self (Book.single self a) B0 (sn :: idsOf (log.take cut)) =
         installFold Rules.code B0 (Book.single self a) (sn :: idsOf (log.take cut)) := by
       unfold restoreBook
@@ -371,6 +373,62 @@ theorem restart_recovers (self : Nat) (a : Addr) (sn : Nat) (sa : Addr) (log : L
         rw [hb] at this
         rw [this]; simp [Book.single]
       · rw [hrelSelf.1 j hjs, hb]; simp [Book.single, hjs]
+
+/-! ## a joiner and the snapshots that are older than its join
+
+A node that joins learns the current members from the handshake. While it catches up it is sent
+whatever snapshot the leader holds — possibly one cut before members joined that the handshake
+listed, among them the leader itself. -/
+
+/-- **a snapshot that does not list the joiner drops nothing**: every address the joiner holds it
+still holds after installing it (so it can go on answering whoever leads) -/
+theorem old_snapshot_drops_nothing (self : Nat) (b s : Book) (ids : List Nat) (hs : s self = none)
+    (j : Nat) (hj : b j ≠ none) : restoreBook Rules.code self b s ids j ≠ none := by
+  unfold restoreBook keptBook keptBookIf
+  simp only [hs, Option.isNone_none, Bool.and_self, if_true]
+  -- installing only adds or updates
+  have hset : ∀ (acc : Book) (i : Nat) (a : Addr), acc j ≠ none → (acc.set i a) j ≠ none := by
+    intro acc i a h
+    unfold Book.set
+    by_cases hji : j = i
+    · simp [hji]
+    · simp [hji, h]
+  have hadd : ∀ (acc : Book) (i : Nat) (a : Addr), acc j ≠ none → connAdd Rules.code acc i a j ≠ none := by
+    intro acc i a h
+    unfold connAdd
+    cases acc i with
+    | none => exact hset acc i a h
+    | some old =>
+      simp only
+      split
+      · exact hset acc i a h
+      · exact h
+  have hstep : ∀ (acc : Book) (i : Nat), acc j ≠ none → installStep Rules.code s acc i j ≠ none := by
+    intro acc i h
+    unfold installStep
+    cases s i with
+    | none => exact h
+    | some x => exact hadd acc i x h
+  have hmono : ∀ (ids : List Nat) (acc : Book), acc j ≠ none → installFold Rules.code s acc ids j ≠ none := by
+    intro ids
+    induction ids with
+    | nil => intro acc h; exact h
+    | cons i t ih =>
+      intro acc h
+      rw [installFold_cons]
+      exact ih _ (hstep acc i h)
+  exact hmono ids b hj
+
+/-- the scenario: node 1 cut a snapshot while alone; 2 and 3 joined; 3 learnt of 2 from the
+handshake and is then sent that snapshot. With the rule "drop whatever the snapshot does not list"
+it forgets node 2 — if node 2 leads by then, node 3 can never answer it. With the code's rule it
+keeps it. -/
+theorem joiner_keeps_the_late_leader :
+    let handshake : Book := fun i => if i = 1 then some "a1" else if i = 2 then some "a2" else if i = 3 then some "a3" else none
+    let snap : Book := Book.single 1 "a1"
+    installFold Rules.code snap (keptBookIf false 3 handshake snap) [1] 2 = none ∧
+    restoreBook Rules.code 3 handshake snap [1] 2 = some "a2" := by
+  decide
 
 /-! ## the repaired behaviours, as explicit logs (the rules before the repairs) -/
 
